@@ -42,7 +42,7 @@ func init() {
 			"the wall clock only moves forward inside a bubble; TLS is not simulated",
 			"the attacker tries MD5/hex/base64 of the counter values within +-64 of identifiers disclosed to it",
 		},
-		RequiredProbes: []string{"c11.allowed", "c11.denied", "c11.after-edit", "c11.held-session-after-edit", "c11.entry.wsp-play.granted", "c11.entry.wsp-play.refused", "c11.entry.ws-flv.granted", "c11.entry.ws-flv.refused", "c11.entry.hls-segment.granted", "c11.entry.rtsp-publish.granted", "c11.entry.rtsp-publish.refused", "c11.wsp-foreign-channel-tried"},
+		RequiredProbes: []string{"c11.allowed", "c11.denied", "c11.after-edit", "c11.held-session-after-edit", "c11.entry.wsp-play.granted", "c11.entry.wsp-play.refused", "c11.entry.ws-flv.granted", "c11.entry.ws-flv.refused", "c11.entry.hls-segment.granted", "c11.entry.rtsp-publish.granted", "c11.entry.rtsp-publish.refused", "c11.wsp-foreign-channel-tried", "c11.user-switched-mid-session", "c11.administrator-demoted"},
 	})
 }
 
@@ -104,9 +104,10 @@ func buildC11(tier string) sim.Scenario {
 			"alice": {pw: "alicepw", pull: "/live/*", push: "/push/alice", exists: true},
 			"bob":   {pw: "bobpw", pull: "/cam/+;/live/a", push: "", exists: true},
 			"carol": {pw: "carolpw", pull: "/live/a/*;/ca/*", push: "/push/*", exists: true},
+			"dave":  {pw: "davepw", admin: true, exists: true}, // an administrator the edits may demote
 		}
 		var init0 []*auth.User
-		for _, n := range []string{"admin", "alice", "bob", "carol"} {
+		for _, n := range []string{"admin", "alice", "bob", "carol", "dave"} {
 			u := users[n]
 			init0 = append(init0, &auth.User{Name: n, Password: u.pw, Admin: u.admin, PullAccess: u.pull, PushAccess: u.push})
 		}
@@ -187,7 +188,7 @@ func buildC11(tier string) sim.Scenario {
 			tokens[user] = [2]string{a, r}
 			return true
 		}
-		for _, n := range []string{"admin", "alice", "bob", "carol"} {
+		for _, n := range []string{"admin", "alice", "bob", "carol", "dave"} {
 			if !login(n) {
 				return
 			}
@@ -211,7 +212,7 @@ func buildC11(tier string) sim.Scenario {
 		nEdits := tp.Choose(3)
 		edited := false
 		for e := 0; e < nEdits && !w.Failed(); e++ {
-			name := []string{"alice", "bob", "carol"}[tp.Choose(3)]
+			name := []string{"alice", "bob", "carol", "dave"}[tp.Choose(4)]
 			u := users[name]
 			switch tp.Choose(4) {
 			case 0: // narrow / change rights
@@ -227,6 +228,10 @@ func buildC11(tier string) sim.Scenario {
 					u.pw = "ignored"
 				}
 				u.pull, u.push, u.exists = np, npush, true
+				if u.admin { // the update names no admin flag: the account is an ordinary user from now on
+					u.admin = false
+					w.Probe("c11.administrator-demoted")
+				}
 				w.Logf("edit: %s pull=%q push=%q", name, np, npush)
 			case 1: // delete
 				res := sw.httpDo("edit", "DELETE", "/api/v1/users/"+name+"?token="+adminTok, nil, "")
@@ -245,7 +250,7 @@ func buildC11(tier string) sim.Scenario {
 					w.Fail("C11/admin-refused", "administrator's user create answered %d", res.Status)
 					return
 				}
-				u.pw, u.pull, u.push, u.exists = "newpw", np, "", true
+				u.pw, u.pull, u.push, u.exists, u.admin = "newpw", np, "", true, false
 				w.Logf("edit: recreate %s pull=%q", name, np)
 			default: // password change only
 				body, _ := json.Marshal(map[string]interface{}{"name": name, "password": "pw2", "pull": u.pull, "push": u.push})
@@ -255,6 +260,10 @@ func buildC11(tier string) sim.Scenario {
 					return
 				}
 				u.pw, u.exists = "pw2", true
+				if u.admin {
+					u.admin = false
+					w.Probe("c11.administrator-demoted")
+				}
 				w.Logf("edit: password %s", name)
 			}
 			edited = true
@@ -353,12 +362,12 @@ func buildC11(tier string) sim.Scenario {
 
 		// ---- requests ----
 		nReq := 3 + tp.Choose(4)
-		names := []string{"admin", "alice", "bob", "carol"}
+		names := []string{"admin", "alice", "bob", "carol", "dave"}
 		for q := 0; q < nReq && !w.Failed(); q++ {
 			user := names[tp.Choose(len(names))]
 			u := users[user]
 			path := paths[tp.Choose(len(paths))]
-			kind := tp.Choose(14)
+			kind := tp.Choose(15)
 			// users whose password or existence changed need a fresh login; the old token keeps naming the user
 			tok := tokens[user][0]
 			switch kind {
@@ -470,7 +479,7 @@ func buildC11(tier string) sim.Scenario {
 				body, _ := json.Marshal(map[string]interface{}{"name": "mallory", "password": "x", "admin": true})
 				res = sw.httpDo(fmt.Sprintf("api%db", q), "POST", "/api/v1/users?token="+tok, map[string]string{"Content-Type": "application/json"}, string(body))
 				created := auth.Get("mallory") != nil
-				if created && user != "admin" {
+				if created && !(u.exists && u.admin) {
 					w.Fail("C11/false-grant", "api-create-user: %s (not an administrator) created an administrator account (status %d)", user, res.Status)
 					return
 				}
@@ -656,6 +665,31 @@ func buildC11(tier string) sim.Scenario {
 				}
 				res := sw.httpDo(fmt.Sprintf("forgedapi%d", q), "GET", "/api/v1/users?token="+tok, map[string]string{"user_name_in_token": "admin"}, "")
 				verdict("api-list-users(forged user header)", user, "manage", "/api/v1/users", res.Status == 200, fmt.Sprintf("status %d", res.Status))
+			case 14: // one RTSP connection, two accounts: the second request is decided with the second account's rights
+				other := names[tp.Choose(len(names))]
+				path2 := paths[tp.Choose(len(paths))]
+				if other == user || !users[other].exists || !u.exists {
+					break
+				}
+				cl := sw.rtspConnect(fmt.Sprintf("switch%d", q), 256<<10)
+				r := &c11Rtsp{cl: cl, user: user, pw: u.pw}
+				m, err := r.do("DESCRIBE", "rtsp://10.9.0.1:554"+path, map[string]string{"Accept": "application/sdp"}, "")
+				if err != nil {
+					cl.c.Close()
+					break
+				}
+				if !verdict("rtsp-describe", user, "pull", path, m.Status == 200, fmt.Sprintf("status %d", m.Status)) {
+					cl.c.Close()
+					return
+				}
+				r.user, r.pw = other, users[other].pw // same connection, same nonce, other account
+				m, err = r.do("DESCRIBE", "rtsp://10.9.0.1:554"+path2, map[string]string{"Accept": "application/sdp"}, "")
+				cl.c.Close()
+				if err != nil {
+					break
+				}
+				w.Probe("c11.user-switched-mid-session")
+				verdict("rtsp-describe(second account on the same connection)", other, "pull", path2, m.Status == 200, fmt.Sprintf("status %d after %s had authenticated first", m.Status, user))
 			default: // attacker: derive tokens from identifiers the server discloses to an unauthenticated client
 				cl := sw.rtspConnect(fmt.Sprintf("att%d", q), 64<<10)
 				m, err := cl.do("DESCRIBE", "rtsp://10.9.0.1:554/live/a", nil, "")
